@@ -42,7 +42,10 @@ def random_sizes(rng, L, nmax=40):
 
 
 def paths_for(n, rng=None, nested=True):
-    """n pairwise distinct relative paths (component lists); some nested when asked"""
+    """n pairwise distinct relative paths (component lists); some nested when asked; one layout in eight uses
+    `tricky_paths` (names that are string prefixes of one another, case variants, dots, spaces, non-ASCII)"""
+    if nested and rng is not None and n <= 40 and rng.random() < 0.125:
+        return tricky_paths(n, rng)
     out = []
     for i in range(n):
         name = f'f{i:03d}'
@@ -51,6 +54,29 @@ def paths_for(n, rng=None, nested=True):
             comps = [f'd{rng.randint(0, 3)}' for _ in range(depth)] + [name]
         else:
             comps = [name]
+        out.append(comps)
+    return out
+
+
+_FILE_NAMES = ['a', 'a.b', 'ab', 'a b', 'A', 'a.b.c', 'a-', 'README', 'README.md', 'file', 'file.bak', 'f', 'f0', 'f00',
+               '\u00e4', 'a\u0308', 'x.torrent', '-', '~', 'a#b', 'a%20b', 'a+b']
+_DIR_NAMES = ['d', 'd1', 'd10', 'd1.x', 'D1', 'cd1', 'cd10', 'd 1', 'sub', 'sub.d', 'su']
+
+
+def tricky_paths(n, rng):
+    """n pairwise distinct relative paths whose names are string prefixes of one another, differ in case only, contain
+    dots, spaces, '%', '+', '#', non-ASCII (composed and decomposed) — the shapes on which a textual path comparison
+    (startswith on joined paths, case folding, normalisation, splitting at dots) goes wrong.  No path is a directory
+    prefix of another (file names and directory names come from disjoint pools), so the layout exists on disk."""
+    out, seen = [], set()
+    while len(out) < n:
+        depth = rng.choice([0, 0, 1, 1, 2])
+        comps = [rng.choice(_DIR_NAMES) for _ in range(depth)] + [rng.choice(_FILE_NAMES)]
+        if len(out) >= len(_FILE_NAMES) // 2 and tuple(comps) in seen:
+            comps[-1] += f'.{len(out)}'
+        if tuple(comps) in seen:
+            continue
+        seen.add(tuple(comps))
         out.append(comps)
     return out
 
